@@ -714,7 +714,16 @@ func (v *Protocol) WritePacket(pkt Packet, streamID int) (err error) {
 	m.streamID = uint32(streamID)
 	m.betterCid = pkt.BetterCid()
 
+	// Register the request before sending it, because the response
+	// may be read by another goroutine before the write returns.
+	tid, registered := v.onPacketWriting(pkt)
+
 	if err = v.WriteMessage(m); err != nil {
+		if registered {
+			v.input.ltransactions.Lock()
+			delete(v.input.transactions, tid)
+			v.input.ltransactions.Unlock()
+		}
 		return oe.WithMessage(err, "write message")
 	}
 
@@ -725,8 +734,7 @@ func (v *Protocol) WritePacket(pkt Packet, streamID int) (err error) {
 	return
 }
 
-func (v *Protocol) onPacketWriten(m *Message, pkt Packet) (err error) {
-	var tid amf0.Number
+func (v *Protocol) onPacketWriting(pkt Packet) (tid amf0.Number, registered bool) {
 	var name amf0.String
 
 	switch pkt := pkt.(type) {
@@ -734,9 +742,6 @@ func (v *Protocol) onPacketWriten(m *Message, pkt Packet) (err error) {
 		tid, name = pkt.TransactionID, pkt.CommandName
 	case *CreateStreamPacket:
 		tid, name = pkt.TransactionID, pkt.CommandName
-	case *SetChunkSize:
-		// The peer will use the new chunk size to read the following messages.
-		v.output.opt.chunkSize = pkt.ChunkSize
 	}
 
 	if tid > 0 && len(name) > 0 {
@@ -744,6 +749,17 @@ func (v *Protocol) onPacketWriten(m *Message, pkt Packet) (err error) {
 		defer v.input.ltransactions.Unlock()
 
 		v.input.transactions[tid] = name
+		return tid, true
+	}
+
+	return tid, false
+}
+
+func (v *Protocol) onPacketWriten(m *Message, pkt Packet) (err error) {
+	switch pkt := pkt.(type) {
+	case *SetChunkSize:
+		// The peer will use the new chunk size to read the following messages.
+		v.output.opt.chunkSize = pkt.ChunkSize
 	}
 
 	return
